@@ -53,6 +53,9 @@ def run(R):
     for size in range(3):
         for r in E.all_regexps(size, '01'):
             n += 1; g1(r, 'ex01-%d' % n)
+    for i, r in enumerate(E.regexp_templates()):
+        if R.tier == 'quick' and i % 2: continue
+        g1(r, 'tpl%d' % i)
     for i, D in enumerate(itertools.chain(E.all_dfas(1, 'ab'), E.all_dfas(2, 'ab'), E.all_dfas(2, '01'))): g2(D, 'ex%d' % i)
     for i, D in enumerate(E.all_dfas(3, 'a')): g2(D, 'ex3a%d' % i)
     from gambatools.dfa import DFA
@@ -61,6 +64,7 @@ def run(R):
     while not R.out_of_time() and i < (250 if R.tier == 'quick' else 4000):
         i += 1
         g1(E.random_regexp(rnd, rnd.randint(5, 9), rnd.choice(['ab', 'ab', '01', 'abc'])), 'r%d' % i)
+        g1(E.regexp_pool_combo(rnd, depth=rnd.choice([2, 2, 3])), 'pool%d' % i)      # 1 + x, x*.y, (1 + x)*, ... : the shapes a special-cased construction would touch
         g2(E.random_dfa(rnd, rnd.randint(3, 5), rnd.choice(['ab', 'a', '01'])), 'r%d' % i)
     root = os.path.dirname(os.path.dirname(os.path.dirname(os.path.abspath(__file__))))
     for hs in ([5, 9] if R.tier == 'quick' else [1, 2, 3, 5, 8, 9, 13]):
@@ -70,4 +74,4 @@ def run(R):
         if not line: R.fail('hash_seed', 'process-crash', {'hashseed': hs}, 'child completes', (r.stderr or r.stdout)[-400:]); continue
         res = json.loads(line[0][9:]); R.evaluations += res['n']; R.groups.setdefault('other_elimination_orders', {'n': 0})['n'] += res['n']
         for b in res['bad']: R.fail(b['check'], 'dfa-to-regexp', b['case'], b['expected'], b['observed'], 'dfa_to_regexp')
-    R.bounds['c06'] = 'all regexps of size <=3 (<=4 thorough) over {a,b} and size <=2 over {0,1}; seeded random trees of size 5-9; all DFAs <=2 states over {a,b} / {0,1}, 3 states over {a}, states named start/accept; seeded random DFAs 3-5 states, also in fresh interpreters with other PYTHONHASHSEED values (other state-elimination orders); equivalence decided exactly via the derivative automaton'
+    R.bounds['c06'] = 'all regexps of size <=3 (<=4 thorough) over {a,b} and size <=2 over {0,1}; all two-level combinations of {1, a, b, a*, 1+a} under + / . / * (every second one in quick); seeded random trees of size 5-9 and trees assembled from a pool of small pieces (1, 0, letters, starred / optional letters); all DFAs <=2 states over {a,b} / {0,1}, 3 states over {a}, states named start/accept; seeded random DFAs 3-5 states, also in fresh interpreters with other PYTHONHASHSEED values (other state-elimination orders); equivalence decided exactly via the derivative automaton'
